@@ -5,7 +5,8 @@ PROPERTY = "C13"
 
 
 def tasks(tier):
-    return contract_tasks("contracts.scheduler", "C13", tier=tier) + contract_tasks("contracts.sim_process", "C13", tier=tier)
+    return contract_tasks("contracts.scheduler", "C13", tier=tier) + contract_tasks("contracts.sim_process", "C13", tier=tier) \
+        + contract_tasks("contracts.run_prelude", "C13", tier=tier) + contract_tasks("contracts.adapters", "C13", tier=tier)
 
 
 TRUSTED_BASE = TRUSTED_CORE
